@@ -654,6 +654,47 @@ def rel_event(ctx, spec, x0, t0, te, t2, ttype="float", dv=None):
     return True
 
 
+def rel_event_queue(ctx, spec, x0, t0, te, t2, dv, ttype="float"):
+    """One queue object handed to several calls (the caller's list is not the callee's to consume), and an impulse that sits
+    exactly on a requested output time of propagateBulk (interior and last): bulk columns == separate propagate calls."""
+    x0 = np.asarray(x0, dtype=float)
+    w = _w("event_queue", spec=spec, x0=x0, t0=t0, te=te, t2=t2, ttype=ttype, dv=list(dv))
+    mon, p = _mon(spec, "event_restart"), _pfx(spec)
+    d = _dyn(spec)
+    imp = _null_event(te, dv)
+    queue = [imp]
+    y1 = _propagate(ctx, spec, t0, t2, x0, p + "event-queue", w, mon, ttype, events=queue)
+    if y1 is None:
+        return False
+    ctx.check(len(queue) == 1 and queue[0] is imp, p + "event-queue-modified-by-the-call", f"propagate changed the caller's event list (now {len(queue)} entries)", w, mon=mon)
+    queue = [imp]
+    y2 = _propagate(ctx, spec, t0, t2, x0, p + "event-queue", w, mon, ttype, events=queue)
+    if y2 is not None:
+        ctx.check(np.array_equal(y1, y2), p + "event-queue-second-call-differs", f"the same propagate call with the same impulse gives another result the second time (|dr| = {np.linalg.norm(y1[:3] - y2[:3]):.3e} km)", w, mon=mon)
+    # the impulse on a requested output time of a bulk call, in the middle and as the last one
+    for times, label in (([t0, te, t2], "interior"), ([t0, t0 + 0.5 * (te - t0), te], "last")):
+        if not (times[0] < times[1] < times[2]):
+            continue
+        tt = _times(times, ttype)
+        q2 = [_null_event(te, dv)]
+        out = _call(ctx, lambda: d.propagateBulk(tt, x0.copy()[:, None], scheduled_events=q2), p + "bulk-impulse-on-output-time", w, mon)  # noqa: B023  (documented (6, K) layout)
+        if out is None:
+            continue
+        out = np.asarray(out, dtype=float)
+        out = out[:, 0, :] if out.ndim == 3 else out
+        if not ctx.check(out.shape == (6, 2), p + "bulk-impulse-on-output-time-shape", f"propagateBulk returned {out.shape}", w, mon=mon):
+            continue
+        for i in (0, 1):
+            yk = _propagate(ctx, spec, times[0], times[i + 1], x0, p + "bulk-impulse-on-output-time", w, mon, ttype, events=[_null_event(te, dv)])
+            if yk is None:
+                continue
+            ur, uv, nrev, e = _unit(x0, times[i + 1] - times[0], dense=True)
+            r = _ratio(out[:, i], yk, 2 * ur, 2 * uv, "event_restart", _jump(x0, times[0], times[i + 1], spec))
+            _close(ctx, "event_restart", r, p + f"bulk-impulse-on-output-time-{label}", f"{spec['method']} propagateBulk output {i + 1}/2 (t0+{times[i + 1] - times[0]:.6g} s) with an impulse "
+                   f"{list(dv)} km/s exactly on the {label} output time t0+{te - t0:.6g} s differs from propagate with the same impulse by |dv| = {np.linalg.norm(out[3:, i] - yk[3:]):.3e} km/s", w, mon)
+    return True
+
+
 def rel_history(ctx, spec, x0, t0, t1, t2, frac):
     """The result depends on (epoch, state) only, not on what the dynamics object did before: a plain propagation repeated on
     the same object after a call that returned while a finite burn was still open gives the bit-identical result."""
@@ -1103,6 +1144,8 @@ def _tb_case(ctx, rng, i):
         if rng.random() < 0.5:
             dv = [rng.gauss(0, 1) * 10 ** rng.uniform(-5, -2) for _ in range(3)]
         done = rel_event(ctx, spec, x0, t0, te, t2, ttype, dv)
+        if dv is not None and t0 < te < t2:
+            rel_event_queue(ctx, spec, x0, t0, te, t2, dv, ttype)
         if te > t0 and t2 > te:
             rel_history(ctx, spec, x0, t0, te, t2, rng.choice([0.0, 0.3, 0.9]))
         key = (rel, spec["method"], _rnd(x0), t0, te, t2, dv is None)
@@ -1288,6 +1331,8 @@ def replay(ctx, w):
         rel_bulk_degenerate(ctx, w["spec"], w["x0"], w["times"], w.get("how", ""))
     elif k == "event":
         rel_event(ctx, w["spec"], w["x0"], w["t0"], w["te"], w["t2"], w.get("ttype", "float"), w.get("dv"))
+    elif k == "event_queue":
+        rel_event_queue(ctx, w["spec"], w["x0"], w["t0"], w["te"], w["t2"], w["dv"], w.get("ttype", "float"))
     elif k == "epoch":
         rel_epoch(ctx, w["spec"], w["x0"], w["t0"], w["t2"], w["shift_s"])
     elif k == "clone_join":
